@@ -30,6 +30,11 @@ THEOREMS = [
     'C13.array_kept_boundary_atoms_apart',
     'C13.disregistry_planes_adjoin', 'C13.disregistry_same_gap', 'C13.disregistry_common_column',
     'C13.cylinder_radius_nearest_face',
+    'C13.setShift_explicit', 'C13.setShift_scale_only_for_vector', 'C13.setShift_index', 'C13.setShift_default',
+    'C13.setShift_both_refused', 'C13.setShift_offered', 'C13.shift_by_index_between_planes',
+    'C13.step_set_ok', 'C13.step_gen_given', 'C13.step_gen_keeps', 'C13.step_refused_keeps', 'C13.step_reports_state',
+    'C13.shift_history_index', 'C13.shift_history_keeps',
+    'C13.resolveCenter_none', 'C13.resolveCenter_some', 'C13.resolveWidth_spec',
 ]
 PARTIAL = {
     'array deletion count': 'array_deletion_count_partial proves that an accepted array has removed exactly `expected` atoms '
@@ -70,11 +75,18 @@ RULE = ('crystals built from literal fractional coordinates: fcc (setting f and 
         'mixed) per plane, plus 22 standard systems (fcc {111}, bcc {110} and {112}, hcp basal / prismatic / pyramidal incl. '
         '(11-22)<c+a>, bct (10-1), orthorhombic (1-10), monoclinic, triclinic); '
         'every m/n axis assignment (all six for the standard systems in the search, a random one otherwise); 3- and 4-index '
-        'input for hcp; configurations: sizemults None / even / odd / zero / negative, list or tuple, amin/bmin/cmin, '
-        'shiftindex (also negative), explicit shift (Cartesian or box-relative, also one that leaves atoms on the slip '
-        'plane; given in the call, at construction of a fresh object, or not at all), centre (Cartesian or box-relative, '
-        'along m, along the line, along n onto another gap between atomic planes, also off its middle), boundary box / '
-        'cylinder, widths 0 .. 3.5 (also relative to a, also larger than the system) plus probe widths 1e-5 on either side of '
+        'input for the hexagonal cells (also for 4 of the standard systems); a-, b-, face-centred orthorhombic and '
+        'rhombohedral (t1, t2) cells with Burgers vectors that are not integer in the conventional cell; constructor '
+        'tolerance 1e-8 / 1e-6 / 1e-7 / 1e-10; configurations: sizemults None / even / odd / zero / negative, list or '
+        'tuple, not three integers ((lo, hi) pairs, floats, strings, 2 or 4 entries), amin/bmin/cmin (exact expected '
+        'multiplier); the shift: every way of naming it (index, negative index, index out of range, Cartesian vector, '
+        'box-relative vector, vector and index together, nothing) crossed with every value of the shiftscale flag '
+        '(absent / False / True) and with where it is given (in the call on a shared object; at construction of a fresh '
+        'object, optionally followed by set_shift(), with nothing / only the flag / another shift in the call); the '
+        'centre: none / Cartesian / box-relative with all three components / along n onto another gap between atomic '
+        'planes (also off its middle, also written box-relative) crossed with the centerscale flag; boundary box / '
+        'cylinder, no width / 0 / widths 0 .. 3.5 / relative to a, crossed with the boundaryscale flag (also larger than the '
+        'system) plus probe widths 1e-5 on either side of '
         'the depth of an atom below every face of the region / of an atom\'s distance from the line / of each surface-layer '
         'edge, linear or elastic arrays, cutoffs 0.2 .. 1.2, with / without return_base_system; disregistry with planepos = '
         'default / centre / another point of the same gap (oracle) and anywhere incl. on an atomic plane (correspondence). '
@@ -135,13 +147,30 @@ CRYSTALS = {
             dict(C11=0.45, C12=0.4, C13=0.41, C33=0.44, C44=0.065, C66=0.12)),
     'ortho_c': ('c', 'orthorhombic', [(0, 0, 0), (F(1, 2), F(1, 2), 0)], [1, 1], ['U'],
                 dict(C11=2.1, C12=0.46, C13=0.22, C22=2.0, C23=1.1, C33=2.7, C44=1.2, C55=0.73, C66=0.74)),
+    # the remaining centred settings: Miller indices are relative to the conventional cell, the rotated cell is built
+    # from the primitive one (a-, b-, face-centred orthorhombic; rhombohedral lattices in the hexagonal setting,
+    # obverse 't1' and reverse 't2')
+    'ortho_a': ('a', 'orthorhombic', [(0, 0, 0), (0, F(1, 2), F(1, 2))], [1, 1], ['Ga'],
+                dict(C11=1.0, C12=0.37, C13=0.33, C22=0.9, C23=0.31, C33=1.35, C44=0.35, C55=0.42, C66=0.4)),
+    'ortho_b': ('b', 'orthorhombic', [(0, 0, 0), (F(1, 2), 0, F(1, 2))], [1, 1], ['Ga'],
+                dict(C11=1.0, C12=0.37, C13=0.33, C22=0.9, C23=0.31, C33=1.35, C44=0.35, C55=0.42, C66=0.4)),
+    'ortho_f': ('f', 'orthorhombic', [(0, 0, 0), (F(1, 2), F(1, 2), 0), (F(1, 2), 0, F(1, 2)), (0, F(1, 2), F(1, 2))],
+                [1, 1, 1, 1], ['Pu'],
+                dict(C11=1.1, C12=0.4, C13=0.3, C22=1.3, C23=0.35, C33=0.95, C44=0.4, C55=0.3, C66=0.45)),
+    'trig_t1': ('t1', 'hexagonal', [(0, 0, 0), (F(2, 3), F(1, 3), F(1, 3)), (F(1, 3), F(2, 3), F(2, 3))], [1, 1, 1], ['Bi'],
+                dict(C11=0.64, C12=0.25, C13=0.25, C33=0.38, C44=0.11)),
+    'trig_t2': ('t2', 'hexagonal', [(0, 0, 0), (F(1, 3), F(2, 3), F(1, 3)), (F(2, 3), F(1, 3), F(2, 3))], [1, 1, 1], ['Sb'],
+                dict(C11=1.0, C12=0.32, C13=0.27, C33=0.45, C44=0.4)),
     # low symmetry: every rotated cell is tilted (cut vector off the slip-plane normal, in-plane vector off m)
     'mono': ('p', 'monoclinic', [(0, 0, 0)], [1], ['Pu'], dict(Cij=_LOWSYM_CIJ)),
     'tric': ('p', 'triclinic', [(0, 0, 0), (F(1, 4), F(1, 2), F(1, 2))], [1, 2], ['Tc', 'Ti'], dict(Cij=_LOWSYM_CIJ)),
 }
 # lattice translations of the conventional cell (besides integer vectors)
 CENTRING = {'p': [], 'f': [(F(1, 2), F(1, 2), 0), (F(1, 2), 0, F(1, 2)), (0, F(1, 2), F(1, 2))],
-            'i': [(F(1, 2), F(1, 2), F(1, 2))], 'c': [(F(1, 2), F(1, 2), 0)]}
+            'i': [(F(1, 2), F(1, 2), F(1, 2))], 'c': [(F(1, 2), F(1, 2), 0)],
+            'a': [(0, F(1, 2), F(1, 2))], 'b': [(F(1, 2), 0, F(1, 2))],
+            't1': [(F(2, 3), F(1, 3), F(1, 3)), (F(1, 3), F(2, 3), F(2, 3))],
+            't2': [(F(1, 3), F(2, 3), F(1, 3)), (F(2, 3), F(1, 3), F(2, 3))]}
 
 
 def _np():
@@ -156,6 +185,8 @@ def lattice_params(name, rng):
         return dict(a=rng.choice([3.0, 4.0, 3.5, u(2.8, 4.2)]))
     if fam == 'hexagonal':
         a = rng.choice([3.0, u(2.8, 3.4)])
+        if name.startswith('trig'):
+            return dict(a=a, c=round(a * rng.choice([2.5, 2.6, u(2.2, 2.9)]), 3))
         return dict(a=a, c=round(a * rng.choice([1.6, 1.633, 1.856, u(1.55, 1.9)]), 3))
     if fam in ('monoclinic', 'triclinic'):
         # box vectors [[a,0,0],[xy,b,0],[xz,yz,c]] with dyadic entries (exact Gram matrix)
@@ -278,6 +309,22 @@ def _hex4(v, plane=False):
     return [u, w, -(u + w), F(v[2])]
 
 
+SHIFT_KEYS = ('shift', 'shiftindex', 'shiftscale')
+
+
+def _shift_kwargs(spec):
+    """the shift arguments of one call (constructor, set_shift, generator) exactly as the caller would write them:
+    any subset of shift / shiftindex / shiftscale (shiftscale may accompany an index or stand alone)."""
+    kw = {}
+    if spec.get('shift') is not None:
+        kw['shift'] = [float(x) for x in spec['shift']]
+    if spec.get('shiftindex') is not None:
+        kw['shiftindex'] = spec['shiftindex']
+    if spec.get('shiftscale') is not None:
+        kw['shiftscale'] = bool(spec['shiftscale'])
+    return kw
+
+
 def make_disl(case):
     """-> (ucell, Dislocation) or raises."""
     import atomman as am
@@ -285,16 +332,13 @@ def make_disl(case):
     b, xi, hkl = case['burgers'], case['xi'], case['hkl']
     if case.get('hex4'):
         b, xi, hkl = _hex4(b), _hex4(xi), _hex4(hkl, plane=True)
-    kw = {}
-    if case.get('shift') is not None:
-        kw['shift'] = [float(x) for x in case['shift']]
-        kw['shiftscale'] = bool(case.get('shiftscale', False))
-    elif case.get('shiftindex') is not None:
-        kw['shiftindex'] = case['shiftindex']
+    kw = _shift_kwargs(case)
+    if case.get('tol') is not None:
+        kw['tol'] = float(case['tol'])
     d = am.defect.Dislocation(ucell, C, burgers=[float(x) for x in b], ξ_uvw=[float(x) for x in xi],
                               slip_hkl=[int(x) for x in hkl], conventional_setting=CRYSTALS[case['crystal']][0],
                               m=case['m'], n=case['n'], **kw)
-    d._c13_case = {k: v for k, v in case.items() if k not in ('shift', 'shiftindex', 'shiftscale')}
+    d._c13_case = {k: v for k, v in case.items() if k not in SHIFT_KEYS}
     return ucell, d
 
 
@@ -317,6 +361,97 @@ def _err_class(e):
     if isinstance(e, IndexError):
         return 'index'
     return type(e).__name__
+
+
+class _Refuse(Exception):
+    """the documentation says this call must be refused (cls = error class)"""
+    def __init__(self, cls, where):
+        Exception.__init__(self, cls + ' at ' + where)
+        self.cls = cls
+        self.where = where
+
+
+def _shift_of(np, d, spec, prev, is_gen, where):
+    """what the documentation of Dislocation / set_shift / monopole / periodicarray says about one call (independent of
+    the implementation's set_shift): a given vector is absolute, or relative to the box vectors of the rotated cell
+    with shiftscale; shiftindex selects from the offered shifts; neither: the first offered shift (constructor,
+    set_shift) or the shift the object already has (generators); both: refused; shiftscale concerns a given vector
+    only.  -> (vector, 'vector' | 'offered' | the previous tag)"""
+    sh, ix = spec.get('shift'), spec.get('shiftindex')
+    if sh is not None and ix is not None:
+        raise _Refuse('value', where)
+    if sh is not None:
+        v = np.asarray(sh, dtype=float)
+        if spec.get('shiftscale'):
+            v = v.dot(np.asarray(d.rcell.box.vects, dtype=float))
+        return v, 'vector'
+    S = np.asarray(d.shifts, dtype=float)
+    if ix is not None:
+        if not -len(S) <= ix < len(S):
+            raise _Refuse('index', where)
+        return S[ix], 'offered'
+    if is_gen:
+        return prev
+    return S[0], 'offered'
+
+
+def _expected_shift(np, d, cfg):
+    """the shift in force when the generator of `cfg` builds its reference system, following the whole history of the
+    configuration (construction of a fresh object, set_shift, the generator call).  None when the history is not part
+    of the configuration (shared object, nothing named in the call).  Raises _Refuse when the constructor or the
+    generator call must be refused (a refused set_shift is just skipped: the object keeps its shift)."""
+    cur = None
+    if cfg.get('init') is not None:
+        cur = _shift_of(np, d, cfg['init'], None, False, 'init')
+        if cfg.get('setshift') is not None:
+            try:
+                cur = _shift_of(np, d, cfg['setshift'], cur, False, 'set_shift')
+            except _Refuse:
+                pass
+    call = {k: cfg[k] for k in SHIFT_KEYS if cfg.get(k) is not None}
+    if cur is None and call.get('shift') is None and call.get('shiftindex') is None:
+        return None
+    return _shift_of(np, d, call, cur, True, 'call')
+
+
+def gen_shift_spec(rng, np, d, named, onplane=False):
+    """one way of naming a shift (index, negative index, Cartesian vector, box-relative vector, nothing) crossed with
+    one value of the shiftscale flag (absent, False, True).  named: the spec must contain a shift or an index."""
+    ns = len(d.shifts)
+    cut, mo = d.cutindex, d.motionindex
+    ways = ['index', 'index', 'negindex', 'vector', 'relative', 'relative']
+    if not named:
+        ways += ['default', 'default']
+    way = rng.choice(ways)
+    flag = rng.choice([None, None, False, True, True])
+    spec = {}
+    if way == 'index':
+        spec['shiftindex'] = rng.randrange(ns)
+        if rng.random() < 0.03:
+            spec['shiftindex'] = ns + rng.randrange(2)       # IndexError
+    elif way == 'negindex':
+        spec['shiftindex'] = -rng.randrange(1, ns + 1)
+    elif way == 'vector':
+        t = [0.0, 0.0, 0.0]
+        t[cut] = round(rng.uniform(0.05, 0.4), 3)
+        t[mo] = round(rng.uniform(-0.5, 0.5), 3)
+        base = np.array(d.shifts[rng.randrange(ns)], dtype=float)
+        spec['shift'] = (base + 0.25 * np.array(t)).tolist()
+        if onplane and rng.random() < 0.3:
+            spec['shift'] = [0.0, 0.0, 0.0]                  # atoms on the slip plane (the cell has an atom at 0)
+        if flag is True:
+            flag = False                                     # (a Cartesian vector read as box-relative is the next way)
+    elif way == 'relative':
+        t = [0.0, 0.0, 0.0]
+        t[cut] = rng.choice([0.125, 0.3, 0.41, 0.27])
+        t[mo] = rng.choice([0.0, 0.0, 0.1, -0.2])
+        spec['shift'] = t
+        flag = True
+    if flag is not None:
+        spec['shiftscale'] = flag
+    if rng.random() < 0.03 and spec.get('shift') is not None:
+        spec['shiftindex'] = 0                               # both: must be refused
+    return spec
 
 
 def gen_config(rng, d, kind, nmax=220):
@@ -351,54 +486,64 @@ def gen_config(rng, d, kind, nmax=220):
     for nm, L in (('amin', d.rcell.box.a), ('bmin', d.rcell.box.b), ('cmin', d.rcell.box.c)):
         if rng.random() < 0.2 and nat <= 30:
             cfg[nm] = float(round(rng.uniform(0.5, 2.6 if nat <= 12 else 1.4) * L, 2))
-    q = rng.random()
-    if q < 0.35:
-        cfg['shiftindex'] = rng.randrange(len(d.shifts))
-    elif q < 0.5:
-        cfg['shiftindex'] = -rng.randrange(1, len(d.shifts) + 1)
-    elif q < 0.6:
-        s = [0.0, 0.0, 0.0]
-        s[d.cutindex] = round(rng.uniform(0.05, 0.4), 3)
-        s[d.motionindex] = round(rng.uniform(-0.5, 0.5), 3)
-        base = np.array(d.shifts[rng.randrange(len(d.shifts))])
-        cfg['shift'] = (base + 0.25 * np.array(s)).tolist()
-    elif q < 0.66:
-        s = [0.0, 0.0, 0.0]
-        s[d.cutindex] = rng.choice([0.125, 0.3, 0.41])
-        cfg['shift'] = s
-        cfg['shiftscale'] = True
-    elif q < 0.70 and kind == 'array':
-        cfg['shift'] = [0.0, 0.0, 0.0]                       # atoms on the slip plane (the cell has an atom at 0)
+    # ---- the shift: every way of naming it x every value of the shiftscale flag x where it is given ------------
+    fresh = rng.random() < 0.38
+    if not fresh:
+        # shared object: the call names its shift (the object keeps the last shift it was given)
+        cfg.update(gen_shift_spec(rng, np, d, named=True, onplane=(kind == 'array')))
     else:
-        cfg['shiftindex'] = 0                                # (always explicit: the object keeps the last shift it was given)
+        # a FRESH object: shift arguments at construction, optionally a set_shift() call, and in the generator call
+        # nothing / only the flag / another shift (which overrides)
+        cfg['init'] = gen_shift_spec(rng, np, d, named=False)
+        if rng.random() < 0.25:
+            cfg['setshift'] = gen_shift_spec(rng, np, d, named=False)
+        q = rng.random()
+        if q < 0.30:
+            pass
+        elif q < 0.55:
+            cfg['shiftscale'] = rng.choice([True, True, False])
+        else:
+            cfg.update(gen_shift_spec(rng, np, d, named=True, onplane=(kind == 'array')))
+    try:
+        eff = _expected_shift(np, d, cfg)
+    except _Refuse:
+        eff = None
+    # ---- the core centre: none / Cartesian / box-relative x the centerscale flag ------------------------------
+    rv = np.asarray(d.rcell.box.vects, dtype=float)
     q = rng.random()
-    if q < 0.45:
+    if q < 0.08:
+        f = rng.choice([None, False, True, True])
+        if f is not None:
+            cfg['centerscale'] = f                           # no centre: the origin whatever the flag
+    elif q < 0.40:
         c = [0.0, 0.0, 0.0]
         c[d.motionindex] = round(rng.uniform(-1.5, 1.5), 3)
         c[d.cutindex] = round(rng.uniform(-0.2, 0.2), 3) if rng.random() < 0.5 else 0.0
         if rng.random() < 0.3:
             c[line] = round(rng.uniform(-1, 1), 3)
         cfg['center'] = c
+        if rng.random() < 0.3:
+            cfg['centerscale'] = False
     elif q < 0.55:
+        # box-relative, all three components (the conversion is the row combination c . vects of the rotated cell)
         c = [0.0, 0.0, 0.0]
-        c[d.motionindex] = rng.choice([0.25, -0.5, 0.125])
+        c[d.motionindex] = rng.choice([0.25, -0.5, 0.125, 0.375])
+        if rng.random() < 0.6:
+            c[d.cutindex] = rng.choice([0.03125, -0.0625, 0.25, 0.5])
+        if rng.random() < 0.4:
+            c[line] = rng.choice([0.25, -0.5, 0.75])
         cfg['center'] = c
         cfg['centerscale'] = True
-    elif q < 0.80:
+    elif q < 0.82:
         # the core (and with it the slip plane) moved along the slip-plane normal onto another gap between atomic
         # planes: shifts[i] - shifts[j] (+ whole cells) is again midway between two planes; sometimes off the middle
         cut = d.cutindex
-        W = float(d.rcell.box.vects[cut, cut])
+        W = float(rv[cut, cut])
         sh = np.asarray(d.shifts, dtype=float)[:, cut]
-        if cfg.get('shiftindex') is not None and len(sh):
-            si = float(sh[cfg['shiftindex']])
-        elif cfg.get('shift') is not None and not cfg.get('shiftscale'):
-            si = float(cfg['shift'][cut])
-        else:
-            si = None
+        si = None if eff is None else float(eff[0][cut])
         sm_ = cfg.get('sizemults')
         H = W * (2 if sm_ is None else max(2, abs(int(sm_[cut]))))
-        if si is not None:
+        if si is not None and len(sh):
             zs = np.unique(np.round(np.mod(np.asarray(d.rcell.atoms.pos)[:, cut], W), 6))
             gaps = np.diff(np.append(zs, zs[0] + W))
             cn = None
@@ -417,6 +562,10 @@ def gen_config(rng, d, kind, nmax=220):
                 c[d.motionindex] = round(rng.uniform(-1.5, 1.5), 3)
             if rng.random() < 0.2:
                 c[line] = round(rng.uniform(-1, 1), 3)
+            if rng.random() < 0.3:
+                # the same point written relative to the box vectors of the rotated cell
+                c = np.linalg.solve(rv.T, np.array(c)).tolist()
+                cfg['centerscale'] = True
             cfg['center'] = c
     # the point given to disregistry() to fix the slip plane: the centre itself, or another point of the same gap
     q = rng.random()
@@ -424,12 +573,21 @@ def gen_config(rng, d, kind, nmax=220):
         cfg['planepos'] = 'center'
     elif q < 0.65:
         cfg['planepos'] = [round(rng.uniform(-3, 3), 3), round(rng.uniform(-2, 2), 3), round(rng.uniform(-0.4, 0.4), 3)]
+    # ---- boundary: no width / zero / a width x the boundaryscale flag -------------------------------------------
     q = rng.random()
-    if q < 0.75:
-        cfg['boundarywidth'] = round(rng.uniform(0.3, 3.5), 3)
-        if rng.random() < 0.15:
-            cfg['boundarywidth'] = round(rng.uniform(0.1, 0.8), 3)
-            cfg['boundaryscale'] = True
+    f = rng.choice([None, None, False, True])
+    if q < 0.70:
+        if f is True:
+            cfg['boundarywidth'] = round(rng.uniform(0.1, 0.8), 3)       # in units of the given unit cell's a
+        else:
+            cfg['boundarywidth'] = round(rng.uniform(0.3, 3.5), 3)
+        if f is not None:
+            cfg['boundaryscale'] = f
+    elif q < 0.80:
+        if rng.random() < 0.5:
+            cfg['boundarywidth'] = 0.0
+        if f is not None:
+            cfg['boundaryscale'] = f                         # no width: no boundary whatever the flag
     if kind == 'mono':
         cfg['boundaryshape'] = rng.choice(['cylinder', 'box'])
         if rng.random() < 0.04:
@@ -438,49 +596,77 @@ def gen_config(rng, d, kind, nmax=220):
         cfg['linear'] = rng.random() < 0.4
         if rng.random() < 0.3:
             cfg['cutoff'] = round(rng.uniform(0.2, 1.2), 3)
-    if rng.random() < 0.12:
-        # the shift is given when the object is constructed (or not at all: shiftindex 0), none in the call
-        q = rng.random()
-        if q < 0.3:
-            ini = {'shiftindex': rng.randrange(-len(d.shifts), len(d.shifts))}
-        elif q < 0.6:
-            s_ = np.array(d.shifts[rng.randrange(len(d.shifts))], dtype=float)
-            s_[d.motionindex] += round(rng.uniform(-0.3, 0.3), 3)
-            ini = {'shift': s_.tolist(), 'shiftscale': False}
-        elif q < 0.9:
-            s_ = [0.0, 0.0, 0.0]
-            s_[d.cutindex] = rng.choice([0.125, 0.3, 0.41, 0.27])
-            s_[d.motionindex] = rng.choice([0.0, 0.1, -0.2])
-            ini = {'shift': s_, 'shiftscale': True}
-        else:
-            ini = {}
-        for k in ('shift', 'shiftindex', 'shiftscale'):
-            cfg.pop(k, None)
-        if cfg.get('center') is not None and not cfg.get('centerscale'):
-            cfg['center'][d.cutindex] = 0.0                  # (the offset along n was chosen for another shift)
-        cfg['init'] = ini
+    if cfg.get('sizemults') is not None and rng.random() < 0.04:
+        # multipliers that are not three positive integers: must be refused (TypeError)
+        cfg['sm_form'] = rng.choice(['pairs', 'float', 'short', 'long', 'str'])
     if rng.random() < 0.10:
         cfg['noret'] = True
     return cfg
 
 
+NOT_KW = ('kind', 'as_tuple', 'planepos', 'probe', 'init', 'setshift', 'noret', 'sm_form')
+
+
+def _sm_form(sm, form):
+    """multipliers that are not three positive integers (each must be refused with TypeError)."""
+    if form == 'pairs':
+        return [(-(x // 2), x // 2) for x in sm]             # what supersize takes, not what the generators document
+    if form == 'float':
+        return [float(x) for x in sm]
+    if form == 'short':
+        return list(sm[:2])
+    if form == 'long':
+        return list(sm) + [2]
+    return [str(x) for x in sm]
+
+
 def run_config(d, cfg):
     """call the real generator.  -> ('ok', base, disl, object) | ('err', class, message, object)
-    cfg['init'] (dict of shift arguments, possibly empty): a FRESH Dislocation object is constructed with them and the
-    generator is called without shift arguments (the shift set at initialisation must be used);
-    cfg['noret']: called without return_base_system, the systems are read from the object's attributes."""
-    kw = {k: v for k, v in cfg.items() if k not in ('kind', 'as_tuple', 'planepos', 'probe', 'init', 'noret')}
+    cfg['init'] (dict of shift arguments, possibly empty): a FRESH Dislocation object is constructed with them;
+    cfg['setshift']: then set_shift() is called with these (a refusal is recorded and the history goes on); the
+    generator is called with the shift arguments of cfg itself (possibly none, possibly only the shiftscale flag);
+    cfg['noret']: called without return_base_system, the systems are read from the object's attributes.
+    The shift of the object after every step is recorded in object._c13_trace."""
+    np = _np()
+    kw = {k: v for k, v in cfg.items() if k not in NOT_KW and k not in SHIFT_KEYS}
+    kw.update(_shift_kwargs(cfg))
     given = None
     if kw.get('sizemults') is not None:
         given = tuple(kw['sizemults']) if cfg.get('as_tuple') else list(kw['sizemults'])
+        if cfg.get('sm_form'):
+            given = _sm_form(cfg['sizemults'], cfg['sm_form'])
         kw['sizemults'] = given
     else:
         kw.pop('sizemults', None)
+    snap = repr(given)
+    trace = []
+
+    def obs(kind_, obj, exc=None):
+        if exc is not None:
+            trace.append((kind_, 'err', _err_class(exc).split()[0]))
+        else:
+            try:
+                trace.append((kind_, 'ok', np.asarray(obj.shift, dtype=float).tolist()))
+            except Exception as e:  # noqa
+                trace.append((kind_, 'err', 'shift-attribute ' + type(e).__name__))
     if cfg.get('init') is not None:
+        _old = d
         try:
             _u, d = make_disl(dict(d._c13_case, **cfg['init']))
         except Exception as e:  # noqa
             return ('err', 'init ' + _err_class(e), str(e)[:160], d)
+        for k_ in ('_c13_shifts',):
+            if hasattr(_old, k_):
+                setattr(d, k_, getattr(_old, k_))
+        obs('ctor', d)
+        if cfg.get('setshift') is not None:
+            try:
+                d.set_shift(**_shift_kwargs(cfg['setshift']))
+                obs('set', d)
+            except Exception as e:  # noqa
+                obs('set', d, e)
+                obs('after-refusal', d)
+    d._c13_trace = trace
     try:
         gen = d.monopole if cfg['kind'] == 'mono' else d.periodicarray
         if cfg.get('noret'):
@@ -492,9 +678,12 @@ def run_config(d, cfg):
         else:
             base, disl = gen(return_base_system=True, **kw)
     except Exception as e:  # noqa
+        obs('gen', d, e)
+        obs('after-refusal', d)
         return ('err', _err_class(e), str(e)[:160], d)
-    if given is not None and list(given) != list(cfg['sizemults']):
-        return ('err', 'mutated', f'the caller\'s sizemults {cfg["sizemults"]} was changed to {list(given)}', d)
+    obs('gen', d)
+    if given is not None and repr(given) != snap:
+        return ('err', 'mutated', f'the caller\'s sizemults {snap} was changed to {given!r}', d)
     return ('ok', base, disl, d)
 
 
@@ -526,10 +715,10 @@ def _resolved(d, cfg, ucell):
         qs.append(int(np.ceil(v / L)) if v > 0.0 else None)
     center = np.zeros(3) if cfg.get('center') is None else np.asarray(cfg['center'], dtype=float)
     if cfg.get('centerscale'):
-        center = d.rcell.box.vector_crystal_to_cartesian(center)
+        center = center.dot(np.asarray(d.rcell.box.vects, dtype=float))
     width = cfg.get('boundarywidth', 0.0)
     if cfg.get('boundaryscale'):
-        width = width * ucell.box.a
+        width = width * (d.ucell if ucell is None else ucell).box.a
     return qs, center, width
 
 
@@ -608,7 +797,10 @@ def _case_list(ctx, rng, per_crystal, bound):
         for (b, xi, hkl, ch) in systems:
             m, n = rng.choice(MN)
             cases.append({'crystal': name, 'lp': lp, 'burgers': [str(x) for x in b], 'xi': list(xi), 'hkl': list(hkl),
-                          'character': ch, 'm': m, 'n': n, 'hex4': (name == 'hcp' and rng.random() < 0.4)})
+                          'character': ch, 'm': m, 'n': n,
+                          'hex4': (CRYSTALS[name][1] == 'hexagonal' and rng.random() < 0.4)})
+            if rng.random() < 0.15:
+                cases[-1]['tol'] = rng.choice([1e-6, 1e-7, 1e-10])       # the constructor's tolerance
     return cases
 
 
@@ -645,7 +837,16 @@ SPECIAL = [
     ('mono', dict(a=3.0, b=4.0, c=3.5, xy=0.0, xz=-0.75, yz=0.0), ['1', '0', '-1'], [0, 1, 0], [1, 0, 1]),
     ('mono', dict(a=3.0, b=4.0, c=3.5, xy=0.0, xz=-0.75, yz=0.0), ['1', '0', '0'], [0, 0, 1], [0, 1, 0]),
     ('tric', dict(a=3.0, b=3.5, c=4.0, xy=0.5, xz=-0.75, yz=0.25), ['1', '0', '-1'], [0, 1, 0], [1, 0, 1]),
+    # centred settings other than f / i / c: indices relative to the conventional cell, Burgers vectors that are not
+    # integer there
+    ('ortho_a', dict(a=3.0, b=4.5, c=3.75), ['0', '1/2', '1/2'], [1, 0, 0], [0, 1, -1]),   # edge
+    ('ortho_b', dict(a=3.0, b=4.5, c=3.75), ['1/2', '0', '1/2'], [1, 0, -1], [0, 1, 0]),   # mixed
+    ('ortho_f', dict(a=3.0, b=4.5, c=3.75), ['1/2', '1/2', '0'], [1, 1, 0], [0, 0, 1]),    # screw
+    ('trig_t1', dict(a=3.0, c=7.5), ['2/3', '1/3', '1/3'], [1, 0, 0], [0, 1, -1]),         # rhombohedral vector, mixed
+    ('trig_t2', dict(a=3.0, c=7.5), ['1', '0', '0'], [1, 2, 0], [0, 0, 1]),                # basal edge
 ]
+# the same systems given with 4-index hexagonal (Miller-Bravais) input
+SPECIAL_HEX4 = [7, 10, 15, 25]
 
 
 def _special_cases(rng, all_mn):
@@ -655,6 +856,11 @@ def _special_cases(rng, all_mn):
         for m, n in mns:
             out.append({'crystal': name, 'lp': lp, 'burgers': b, 'xi': xi, 'hkl': hkl, 'character': 'special',
                         'm': m, 'n': n, 'hex4': False})
+    for k in SPECIAL_HEX4:
+        name, lp, b, xi, hkl = SPECIAL[k]
+        m, n = rng.choice(MN) if not all_mn else rng.choice([('y', 'z'), ('x', 'z'), ('z', 'x')])
+        out.append({'crystal': name, 'lp': lp, 'burgers': b, 'xi': xi, 'hkl': hkl, 'character': 'special-hex4',
+                    'm': m, 'n': n, 'hex4': True})
     return out
 
 
@@ -784,7 +990,9 @@ def _correspond_case(ctx, case, raw, ncfg, stats, jobs):
                 ctx.disagree('cells:relational', f'relational model: own answer -> {v1}, non-reduced vector -> {v2}', info)
     # ---- shifts --------------------------------------------------------------------------------
     W = d.rcell.box.vects[d.cutindex, d.cutindex]
-    so = ctx.driver.ask('shifts 8 %s %s %s' % (cm.fr(TOL), cm.fr(W), cm.frs(np.asarray(d.rcell.atoms.pos)[:, d.cutindex])))
+    tol_ = float(raw.get('tol') or TOL)
+    so = ctx.driver.ask('shifts %d %s %s %s' % (-int(np.floor(np.log10(tol_))), cm.fr(tol_), cm.fr(W),
+                                                cm.frs(np.asarray(d.rcell.atoms.pos)[:, d.cutindex])))
     ctx.stats.case('shifts', canon, nontrivial=False)
     if so.startswith('err'):
         ctx.disagree('shifts:refusal', f'model refuses the shift list: {so}', info)
@@ -861,35 +1069,25 @@ def _correspond_config(ctx, case, raw, ucell, d, cfg, stats, jobs):
     res = run_config(d, cfg)
     d = res[3]
     label = f'{raw["crystal"]} b={raw["burgers"]} xi={raw["xi"]} hkl={raw["hkl"]} m={raw["m"]} n={raw["n"]} {cfg}'
-    if res[0] == 'err' and res[1] in ('index', 'solver'):
-        if res[1] == 'solver':
-            stats['solver_refused'] += 1
-        return                                            # shiftindex out of range / complex elastic field
-    shift = np.asarray(d.shift, dtype=float)
+    if res[0] == 'err' and res[1] == 'solver':
+        stats['solver_refused'] += 1
+        return                                            # complex elastic field
+    try:
+        shift = np.asarray(d.shift, dtype=float)
+    except Exception as e:  # noqa
+        ctx.disagree('shift:attribute', f'{label}: reading .shift raised {type(e).__name__}: {e}', info)
+        return
     qs, center, width = _resolved(d, cfg, ucell)
-    # set_shift: an explicit shift is taken as given (or times the rcell vectors), an index selects from the model's list
-    ms = getattr(d, '_c13_shifts', None)
-    if res[0] == 'ok' or res[1] not in ('type',):
-        exp = None
-        if cfg.get('init') is not None:
-            ini = cfg['init']
-            if ini.get('shift') is not None:
-                exp = np.asarray(ini['shift'], dtype=float)
-                if ini.get('shiftscale'):
-                    exp = exp.dot(np.asarray(d.rcell.box.vects))
-            elif ms:
-                exp = np.zeros(3)
-                exp[d.cutindex] = ms[ini.get('shiftindex', 0)]
-        elif cfg.get('shift') is not None:
-            exp = np.asarray(cfg['shift'], dtype=float)
-            if cfg.get('shiftscale'):
-                exp = exp.dot(np.asarray(d.rcell.box.vects))
-        elif cfg.get('shiftindex') is not None and ms:
-            exp = np.zeros(3)
-            exp[d.cutindex] = ms[cfg['shiftindex']]
-        if exp is not None and np.abs(shift - exp).max() > 1e-9 * max(1.0, float(np.abs(exp).max())):
-            ctx.disagree('shift:resolution', f'{label}: shift used {shift.tolist()}, model {exp.tolist()}', info)
-            return
+    # which shift / centre / width: the model's parameter handling over the configuration's history of calls
+    if not _correspond_params(ctx, np, d, cfg, res, ucell, label, info, stats, center, width):
+        return
+    if cfg.get('sm_form'):
+        ctx.stats.case(kind + ':bad-multipliers', canon, nontrivial=False)
+        if res[0] != 'err' or res[1] != 'type':
+            ctx.disagree(kind + ':sizemults', f'{label}: multipliers of the form {cfg["sm_form"]} '
+                         f'({_sm_form(cfg["sizemults"], cfg["sm_form"])}) are not three positive integers: the model refuses '
+                         f'(TypeError), implementation {res[0] if res[0] == "ok" else res[1:3]}', info)
+        return
     # multipliers first (cheap, also covers the TypeError refusal)
     sm = cfg.get('sizemults')
     sline = 'sizes %d %s %s' % (d.lineindex, ' '.join(['-'] * 3 if sm is None else [str(int(x)) for x in sm]),
@@ -939,6 +1137,118 @@ def _correspond_config(ctx, case, raw, ucell, d, cfg, stats, jobs):
         _correspond_disreg(ctx, np, raw, d, cfg, res, label, info, stats)
         if kind == 'mono':
             _correspond_region(ctx, np, raw, d, cfg, res, label, info, stats)
+
+
+def _args_wire(np, spec):
+    sh = spec.get('shift')
+    return '%s %s %d' % ('-' if sh is None else cm.frs(np.asarray(sh, dtype=float)),
+                         '-' if spec.get('shiftindex') is None else str(int(spec['shiftindex'])),
+                         1 if spec.get('shiftscale') else 0)
+
+
+def _correspond_params(ctx, np, d, cfg, res, ucell, label, info, stats, center, width):
+    """driver op `params`: the model's set_shift / generator shift handling run over the history of the configuration
+    (construction, set_shift, generator call) against the shift the real object reports after every step; the
+    centre / width conversions the harness passes on to the model are checked against the model's own.
+    -> False when the rest of the comparison makes no sense."""
+    ms = getattr(d, '_c13_shifts', None)
+    cut = d.cutindex
+    if ms:
+        S = np.zeros((len(ms), 3))
+        S[:, cut] = ms
+    else:
+        S = np.asarray(d.shifts, dtype=float)
+    call = {k: cfg[k] for k in SHIFT_KEYS if cfg.get(k) is not None}
+    calls = []
+    if cfg.get('init') is not None and cfg.get('setshift') is not None:
+        calls.append('set ' + _args_wire(np, cfg['setshift']))
+    calls.append('gen ' + _args_wire(np, call))
+    c = cfg.get('center')
+    line = 'params %s %s %d %s %s %d %s %s %d %s %d' % (
+        cm.frs(np.asarray(d.rcell.box.vects)), cm.fr(ucell.box.a), len(S), cm.frs(S),
+        _args_wire(np, cfg.get('init') or {}), len(calls), ' '.join(calls),
+        '-' if c is None else cm.frs(np.asarray(c, dtype=float)), 1 if cfg.get('centerscale') else 0,
+        cm.fr(float(cfg.get('boundarywidth', 0.0))), 1 if cfg.get('boundaryscale') else 0)
+    out = ctx.driver.ask(line)
+    stats['params'] = stats.get('params', 0) + 1
+    what = '+'.join(sorted(k for k in ('init', 'setshift') if cfg.get(k) is not None) +
+                    sorted(k for k in call)) or 'stored'
+    ctx.stats.case('params:' + what, (label,), nontrivial=(res[0] == 'ok'))
+    if res[0] == 'err' and res[1].startswith('init '):
+        if out != 'err:' + res[1].split()[1]:
+            ctx.disagree('shift:construction', f'{label}: Dislocation(..., {cfg["init"]}) raised {res[1:3]}, model {out[:60]}',
+                         info)
+        return False
+    if out.startswith('err:'):
+        if out == 'err:format':
+            raise cm.InfraError('params line rejected by the driver: ' + line[:200])
+        ctx.disagree('shift:construction', f'{label}: Dislocation(..., {cfg.get("init")}) was constructed, the model refuses '
+                     f'({out})', info)
+        return False
+    f = _split(out)
+    replies = [r.strip() for r in f[1].split(';')]
+
+    def same(a, b):
+        a, b = np.asarray(a, dtype=float), np.asarray(b, dtype=float)
+        return a.shape == b.shape and float(np.abs(a - b).max()) <= 1e-9 * max(1.0, float(np.abs(b).max()))
+    trace = list(getattr(d, '_c13_trace', []))
+    state = _fl(f[0][3:])
+    steps = []                                            # (kind, model reply) in order
+    if cfg.get('init') is not None:
+        steps.append(('ctor', 'ok ' + f[0][3:]))
+        if cfg.get('setshift') is not None:
+            steps.append(('set', replies[0]))
+    steps.append(('gen', replies[-1]))
+    ti = 0
+    for kind_, rep in steps:
+        if kind_ == 'gen' and res[0] == 'err' and res[1] == 'type':
+            return True                                   # refused for its multipliers before the shift is looked at
+        while ti < len(trace) and trace[ti][0] != kind_:
+            ti += 1
+        if ti >= len(trace):
+            break                                         # shared object: only the generator step is observed
+        ob = trace[ti]
+        ti += 1
+        if rep.startswith('ok'):
+            mv = _fl(rep[3:])
+            if ob[1] == 'ok':
+                if not same(ob[2], mv):
+                    ctx.disagree('shift:resolution', f'{label}: after {kind_} the object reports shift {ob[2]}, model {mv} '
+                                 f'(history: init={cfg.get("init")}, set_shift={cfg.get("setshift")}, call={call})', info)
+                    return False
+            else:
+                later = kind_ == 'gen' and res[0] == 'err' and res[1] not in ('value', 'index')
+                if not later:
+                    ctx.disagree('shift:refusal', f'{label}: {kind_} raised {ob[2]} '
+                                 f'({res[2] if res[0] == "err" else ""}), the model resolves the shift to {mv}', info)
+                    return False
+                # refused later (slip plane, deletion count, radius): the shift had been set
+                if ti < len(trace) and trace[ti][0] == 'after-refusal' and trace[ti][1] == 'ok' and not same(trace[ti][2], mv):
+                    ctx.disagree('shift:resolution', f'{label}: after the refused {kind_} the object reports shift '
+                                 f'{trace[ti][2]}, model {mv}', info)
+                    return False
+            state = mv
+        else:
+            if ob[1] == 'ok':
+                ctx.disagree('shift:refusal', f'{label}: {kind_} with {cfg.get("setshift") if kind_ == "set" else call} was '
+                             f'accepted (shift {ob[2]}), the model refuses ({rep})', info)
+                return False
+            if ob[2] != rep[4:]:
+                ctx.disagree('shift:refusal-class', f'{label}: {kind_} raised {ob[2]}, model {rep}', info)
+                return False
+            if ti < len(trace) and trace[ti][0] == 'after-refusal' and trace[ti][1] == 'ok' and not same(trace[ti][2], state):
+                ctx.disagree('shift:refused-call-changed-state', f'{label}: the refused {kind_} left shift {trace[ti][2]}, '
+                             f'before it was {state}', info)
+                return False
+            if kind_ == 'gen':
+                return False
+    mc = np.array(_fl(f[3]))
+    mw = float(F(f[4]))
+    if float(np.abs(mc - center).max()) > 1e-12 * max(1.0, float(np.abs(mc).max())) or abs(mw - width) > 1e-12 * max(1.0, mw):
+        ctx.disagree('params:harness', f'{label}: centre / width handed to the model {np.asarray(center).tolist()}, {width} '
+                     f'differ from the model\'s own conversion {mc.tolist()}, {mw}', info)
+        return False
+    return not (res[0] == 'err' and res[1] in ('index', 'value'))
 
 
 def _correspond_region(ctx, np, raw, d, cfg, res, label, info, stats):
@@ -1000,7 +1310,7 @@ def _correspond_disreg(ctx, np, raw, d, cfg, res, label, info, stats):
     rng = ctx.rng
     center = np.zeros(3) if cfg.get('center') is None else np.asarray(cfg['center'], dtype=float)
     if cfg.get('centerscale'):
-        center = d.rcell.box.vector_crystal_to_cartesian(center)
+        center = center.dot(np.asarray(d.rcell.box.vects, dtype=float))
     y = np.asarray(base.atoms.pos).dot(n)
     pps = [None, center.copy()]
     q = np.array([rng.uniform(-3, 3) for _ in range(3)])
@@ -1349,16 +1659,18 @@ def _oracle_shifts(ctx, d, info, label):
     cut = d.cutindex
     W = d.rcell.box.vects[cut, cut]
     z = np.asarray(d.rcell.atoms.pos)[:, cut]
+    # (the coordinates are rounded to the constructor's tolerance before the mid-points are taken)
+    tolW = max(1e-7 * W, 2.0 * float(getattr(d, '_c13_case', {}).get('tol') or 0.0))
     for s in np.asarray(d.shifts):
         if any(abs(s[i]) > 0 for i in range(3) if i != cut):
             ctx.violate('shift:direction', f'{label}: shift {s.tolist()} is not along the slip plane normal', info)
             return
         t = np.mod(z + s[cut], W)                           # heights in [0, W); the slip plane is at 0 (and W)
-        if min(t.min(), W - t.max()) < 1e-7 * W:
+        if min(t.min(), W - t.max()) < tolW:
             ctx.violate('shift:on-plane', f'{label}: shift {s.tolist()} leaves an atomic plane on the slip plane', info)
             return
         above, below = t.min(), t.max() - W
-        if abs(above + below) > 1e-7 * W:
+        if abs(above + below) > tolW:
             ctx.violate('shift:midway', f'{label}: shift {s.tolist()}: nearest planes at {below} and {above}', info)
             return
     t = np.mod(z, W)
@@ -1570,7 +1882,7 @@ def _disregistry_check(ctx, np, d, base, disl, kind, cfg, info, label, ucell_a=1
     n = np.asarray(d.dislsol.n)
     center = np.zeros(3) if cfg.get('center') is None else np.asarray(cfg['center'], dtype=float)
     if cfg.get('centerscale'):
-        center = d.rcell.box.vector_crystal_to_cartesian(center)
+        center = center.dot(np.asarray(d.rcell.box.vects, dtype=float))
     # the slip plane passes through the core centre; it must lie in a gap between two atomic planes of the reference
     y = np.asarray(base.atoms.pos).dot(n)
     xs = np.asarray(base.atoms.pos).dot(m)
@@ -1697,32 +2009,84 @@ def _disregistry_check(ctx, np, d, base, disl, kind, cfg, info, label, ucell_a=1
                     f'{np.round(b, 4).tolist()}', info)
 
 
-def _requested_shift(ctx, np, d, cfg, info, label, key):
-    """the shift the caller asked for (explicit, box-relative, or an entry of the list of offered shifts, which
-    _oracle_shifts checks); the object must report it as its current shift.  None after a violation."""
-    if cfg.get('shift') is not None:
-        req = np.asarray(cfg['shift'], dtype=float)
-        if cfg.get('shiftscale'):
-            req = req.dot(np.asarray(d.rcell.box.vects))
-    elif cfg.get('shiftindex') is not None:
-        req = np.asarray(d.shifts, dtype=float)[cfg['shiftindex']]
-    elif cfg.get('init') is not None:
-        # no shift argument in the call: the shift set when the (fresh) object was constructed
-        ini = cfg['init']
-        if ini.get('shift') is not None:
-            req = np.asarray(ini['shift'], dtype=float)
-            if ini.get('shiftscale'):
-                req = req.dot(np.asarray(d.rcell.box.vects))
-        else:
-            req = np.asarray(d.shifts, dtype=float)[ini.get('shiftindex', 0)]
-    else:
-        return np.asarray(d.shift, dtype=float)
-    got = np.asarray(d.shift, dtype=float)
+def _requested_shift(ctx, np, d, cfg, info, label, key, base=None):
+    """the shift the caller asked for, by whichever route (vector, box-relative vector, index into the offered shifts
+    - which _oracle_shifts checks -, nothing; at construction, through set_shift, in the call; any value of the
+    shiftscale flag): the object must report it as its current shift.  When it was named by index / default and the
+    core is not moved off the plane through the origin, the slip plane must lie midway between the two atomic planes
+    of the reference system adjoining it (exact rational comparison of the float heights).  None after a violation."""
+    how = (f'init={cfg.get("init")}, set_shift={cfg.get("setshift")}, call='
+           f'{ {k: cfg[k] for k in SHIFT_KEYS if cfg.get(k) is not None} }')
+    try:
+        got = np.asarray(d.shift, dtype=float)
+    except Exception as e:  # noqa
+        ctx.violate(key + ':shift-request', f'{label}: reading .shift raised {type(e).__name__}: {e}', info)
+        return None
+    try:
+        exp = _expected_shift(np, d, cfg)
+    except _Refuse as r:
+        ctx.violate(key + ':shift-not-refused', f'{label}: the {r.where} names its shift inadmissibly ({r.cls}: '
+                    f'{"shift and shiftindex both given" if r.cls == "value" else "shiftindex out of range"}) and must be '
+                    f'refused, yet a system was generated with shift {got.tolist()} ({how})', info)
+        return None
+    if exp is None:
+        return got
+    req, tag = exp
     if got.shape != (3,) or np.abs(got - req).max() > 1e-9 * max(1.0, float(np.abs(req).max())):
         ctx.violate(key + ':shift-request', f'{label}: the generator used shift {got.tolist()}, requested was '
-                    f'{req.tolist()} ({"shift" if cfg.get("shift") is not None else "shiftindex" if cfg.get("shiftindex") is not None else "set at construction: " + str(cfg.get("init"))})', info)
+                    f'{req.tolist()} ({how})', info)
         return None
+    if tag == 'offered' and base is not None:
+        cut = d.cutindex
+        _qs, center, _w = _resolved(d, cfg, None)
+        if abs(float(center[cut])) == 0.0:
+            W = F(float(d.rcell.box.vects[cut, cut]))
+            ys = sorted({F(float(y)) for y in np.asarray(base.atoms.pos)[:, cut]})
+            up = [y for y in ys if y > 0]
+            dn = [y for y in ys if y < 0]
+            tol_ = max(F(1, 10 ** 7) * W, F(2.0 * float(getattr(d, '_c13_case', {}).get('tol') or 0.0)))
+            if any(abs(y) <= tol_ for y in ys):
+                ctx.violate(key + ':slip-plane-midway', f'{label}: shift named by index / default ({how}) but an atomic '
+                            f'plane of the reference system lies on the slip plane', info)
+                return None
+            if up and dn and abs(up[0] + dn[-1]) > tol_:
+                ctx.violate(key + ':slip-plane-midway', f'{label}: shift named by index / default ({how}) but the slip '
+                            f'plane is not midway between the adjoining atomic planes of the reference system, which lie '
+                            f'at {float(dn[-1])} and {float(up[0])} along n', info)
+                return None
     return req
+
+
+def _check_mults(ctx, np, d, cfg, base, info, label, key):
+    """the reference system has exactly the multipliers asked for: per direction the larger of the given multiplier
+    (default 2, 1 along the line) and the smallest multiplier reaching amin/bmin/cmin, made even across the line."""
+    line = d.lineindex
+    sm = cfg.get('sizemults')
+    rv = np.asarray(d.rcell.box.vects, dtype=float)
+    bv = np.asarray(base.box.vects, dtype=float)
+    for i, nm in enumerate(('amin', 'bmin', 'cmin')):
+        L = float(np.linalg.norm(rv[i]))
+        got = float(np.linalg.norm(bv[i])) / L
+        if abs(got - round(got)) > 1e-7:
+            ctx.violate(key + ':multipliers', f'{label}: box vector {i} of the reference system is {got} times the rotated '
+                        f'cell\'s', info)
+            return False
+        got = int(round(got))
+        want = (1 if i == line else 2) if sm is None else int(sm[i])
+        v = cfg.get(nm, 0.0)
+        if v > 0.0:
+            r = F(float(v)) / F(L)
+            q = math.ceil(r)
+            if min(abs(r - q), abs(r - (q - 1))) < F(1, 10 ** 12) * max(1, q):
+                continue                                  # amin a whole number of cells within rounding: either count
+            if i != line and q % 2:
+                q += 1
+            want = max(want, q)
+        if got != want:
+            ctx.violate(key + ':multipliers', f'{label}: the reference system has {got} cells along box vector {i} (length '
+                        f'{L}); sizemults {sm}, {nm} = {cfg.get(nm, 0.0)} ask for {want}', info)
+            return False
+    return True
 
 
 def _check_boundary(ctx, np, d, cfg, base, disl, shape, width, info, label, key):
@@ -1760,11 +2124,15 @@ def _oracle_mono(ctx, np, case, raw, ucell, d, cfg, res, info, label):
     key = 'mono'
     base, disl, d = res[1], res[2], res[3]
     line, cut, motion = d.lineindex, d.cutindex, d.motionindex
-    shift = _requested_shift(ctx, np, d, cfg, info, label, key)
+    shift = _requested_shift(ctx, np, d, cfg, info, label, key, base)
     if shift is None:
         return
     if d.base_system is not base or d.disl_system is not disl:
         ctx.violate(key + ':attributes', f'{label}: base_system / disl_system of the object are not the returned systems', info)
+        return
+    if cfg.get('sm_form'):
+        ctx.violate(key + ':bad-multipliers-accepted', f'{label}: sizemults = {_sm_form(cfg["sizemults"], cfg["sm_form"])} '
+                    f'is not three positive integers, yet a system was generated', info)
         return
     qs, center, width = _resolved(d, cfg, ucell)
     V = abs(np.linalg.det(np.asarray(base.box.vects)))
@@ -1780,13 +2148,8 @@ def _oracle_mono(ctx, np, case, raw, ucell, d, cfg, res, info, label):
             ctx.violate(key + ':symmetric', f'{label}: the Cartesian origin sits at relative coordinate {rrel.tolist()} of '
                         f'the reference box (expected {exp} along {i})', info)
             return
-    sm = cfg.get('sizemults')
-    if sm is not None:
-        got = [int(round(np.linalg.norm(np.asarray(base.box.vects)[i]) / np.linalg.norm(np.asarray(d.rcell.box.vects)[i])))
-               for i in range(3)]
-        if any(g < s for g, s in zip(got, sm)) or any(g % 2 for i, g in enumerate(got) if i != line):
-            ctx.violate(key + ':multipliers', f'{label}: multipliers {got} for requested {sm}', info)
-            return
+    if not _check_mults(ctx, np, d, cfg, base, info, label, key):
+        return
     # every reference atom kept, same order and type
     if disl.natoms != base.natoms:
         ctx.violate(key + ':keeps-atoms', f'{label}: {disl.natoms} atoms for {base.natoms} reference atoms', info)
@@ -1847,11 +2210,17 @@ def _oracle_array(ctx, np, case, raw, ucell, d, cfg, res, info, label):
     key = 'array'
     base, disl, d = res[1], res[2], res[3]
     line, cut, motion = d.lineindex, d.cutindex, d.motionindex
-    shift = _requested_shift(ctx, np, d, cfg, info, label, key)
+    shift = _requested_shift(ctx, np, d, cfg, info, label, key, base)
     if shift is None:
         return
     if d.base_system is not base or d.disl_system is not disl:
         ctx.violate(key + ':attributes', f'{label}: base_system / disl_system of the object are not the returned systems', info)
+        return
+    if cfg.get('sm_form'):
+        ctx.violate(key + ':bad-multipliers-accepted', f'{label}: sizemults = {_sm_form(cfg["sizemults"], cfg["sm_form"])} '
+                    f'is not three positive integers, yet a system was generated', info)
+        return
+    if not cfg.get('probe') and not _check_mults(ctx, np, d, cfg, base, info, label, key):
         return
     qs, center, width = _resolved(d, cfg, ucell)
     bvec = np.asarray(d.dislsol.burgers)
@@ -2036,15 +2405,42 @@ def _oracle_refusal(ctx, np, d, cfg, res, ucell, info, label):
     line = d.lineindex
     if cls == 'solver':
         return
+    if cls.startswith('init '):
+        # the constructor refused: justified only by its own shift arguments
+        try:
+            _shift_of(np, d, cfg['init'], None, False, 'init')
+        except _Refuse as r:
+            if r.cls == cls.split()[1]:
+                return
+        ctx.violate(kind + ':refusal-construction', f'{label}: Dislocation(..., {cfg["init"]}) raised {cls[5:]}: {res[2]}', info)
+        return
     if cls == 'type':
-        ok = sm is not None and (any((not isinstance(x, int)) or x <= 0 for x in sm)
-                                 or any(sm[i] % 2 for i in range(3) if i != line))
+        ok = cfg.get('sm_form') is not None or (
+            sm is not None and (any((not isinstance(x, int)) or x <= 0 for x in sm)
+                                or any(sm[i] % 2 for i in range(3) if i != line)))
         if not ok:
             ctx.violate(kind + ':refusal-type', f'{label}: TypeError for acceptable multipliers: {res[2]}', info)
         return
-    if sm is not None and (any(x <= 0 for x in sm) or any(sm[i] % 2 for i in range(3) if i != line)):
-        ctx.violate(kind + ':odd-accepted', f'{label}: invalid multipliers {sm} did not raise TypeError but {cls}', info)
+    if cfg.get('sm_form') or (sm is not None and (any(x <= 0 for x in sm) or any(sm[i] % 2 for i in range(3) if i != line))):
+        ctx.violate(kind + ':odd-accepted', f'{label}: invalid multipliers {sm} {cfg.get("sm_form", "")} did not raise '
+                    f'TypeError but {cls}: {res[2]}', info)
         return
+    if cls in ('value', 'index'):
+        # the only documented refusals of these classes concern the way the shift is named in the call
+        try:
+            _expected_shift(np, d, cfg)
+        except _Refuse as r:
+            if r.cls == cls and r.where == 'call':
+                return
+        ctx.violate(kind + ':refusal', f'{label}: unexpected refusal {cls}: {res[2]}', info)
+        return
+    try:
+        _expected_shift(np, d, cfg)
+    except _Refuse as r:
+        if r.where == 'call':
+            ctx.violate(kind + ':shift-not-refused', f'{label}: the call names its shift inadmissibly ({r.cls}) and must be '
+                        f'refused for that; it was refused with {cls}: {res[2]}', info)
+            return
     if cls == 'assert' and kind == 'mono' and 'radius' in res[2]:
         return                                            # boundary wider than the system: Cylinder's assertion
     if cls == 'value slip' and kind == 'array':
@@ -2175,8 +2571,6 @@ def _search_case(ctx, case, raw, ncfg, stats):
                     ctx.violate(kind + ':complex-field', f'{lab}: the generator failed on a complex elastic field although no '
                                 f'atomic plane lies on the slip plane ({res[2]})', cinfo)
                 continue
-            if res[1] == 'index':
-                continue
             stats['refusals'] += 1
             stats['refusal:' + res[1]] = stats.get('refusal:' + res[1], 0) + 1
             _oracle_refusal(ctx, np, d, cfg, res, ucell, cinfo, lab)
@@ -2192,10 +2586,11 @@ def _search_case(ctx, case, raw, ncfg, stats):
 def search(ctx, broken):
     rng = ctx.rng
     big = broken or ctx.thorough
-    cases = _special_cases(rng, True) + _case_list(ctx, rng, 10 if big else 3, 2 if big else 1)
+    spec = _special_cases(rng, True)
+    cases = spec + _case_list(ctx, rng, 10 if big else 3, 2 if big else 1)
     # every m/n assignment for a sample of the generated systems
     extra = []
-    for c in cases[len(SPECIAL) * 6:][:: (2 if big else 4)]:
+    for c in cases[len(spec):][:: (2 if big else 4)]:
         for m, n in MN:
             if (m, n) != (c['m'], c['n']):
                 extra.append(dict(c, m=m, n=n))
